@@ -268,6 +268,66 @@ func genOpScenario(r *rand.Rand, op string, small bool) *Scenario {
 	return sc
 }
 
+// genOptProvScenario: optimistic provide after warm-up lookups; the peers
+// then fail much more often, so that few (or no) ADD_PROVIDER RPCs get scheduled.
+func genOptProvScenario(r *rand.Rand) *Scenario {
+	sc := genOpScenario(r, "provide", false)
+	sc.OptProv = true
+	sc.Warm = 5 + r.Intn(2)
+	sc.WarmBig = r.Intn(2) == 0
+	sc.Timeout = 0
+	sc.K = []int{2, 3}[r.Intn(2)]
+	sc.N = 8 + r.Intn(25)
+	sc.Scripts = sc.Scripts[:0]
+	failP := []float64{0.2, 0.6, 1.0}[r.Intn(3)]
+	for i := 0; i < sc.N; i++ {
+		s := PeerScript{Dial: "ok", Req: "ok", Closer: subset(r, sc.N, 0.4), AddProv: pick(r, "", "", "fail")}
+		if r.Float64() < failP {
+			if r.Intn(2) == 0 {
+				s.Dial = "fail"
+			} else {
+				s.Req = "fail"
+			}
+		}
+		sc.Scripts = append(sc.Scripts, s)
+	}
+	sc.RT = []int{1 + r.Intn(sc.N), 1 + r.Intn(sc.N), 1 + r.Intn(sc.N)} // the warm-up adds more
+	sc.Reject = nil
+	return sc
+}
+
+func TestOpsOptProvide(t *testing.T) {
+	e := getEnv(t)
+	rec := newRecorder(t, e, "ops-optprovide", "optimistic provide after warm-up lookups; seeded scenarios and schedules; non-trivial iff a peer failed or the operation was cancelled")
+	defer rec.Close(t, e)
+	if e.Replay != "" {
+		d, err := loadReplay(e.Replay)
+		if err != nil {
+			t.Fatal(err)
+		}
+		ch := &sim.ReplayChooser{Seq: d.Choices}
+		evs := runLookup(t, d.Scenario, ch)
+		rec.Record(evs, replayDesc{d.Scenario, ch.Taken()}, nontrivialLookup(d.Scenario, evs))
+		return
+	}
+	r := rand.New(rand.NewSource(e.Seed))
+	n := 150
+	if e.Tier == "thorough" {
+		n = 3000
+	}
+	if e.Budget > 0 {
+		n = e.Budget
+	}
+	for i := 0; i < n; i++ {
+		sc := genOptProvScenario(r)
+		ch := sim.NewRandomChooser(r.Int63())
+		writeCurrent(e, replayDesc{sc, nil})
+		evs := runLookup(t, sc, ch)
+		rec.Record(evs, replayDesc{sc, ch.Taken()}, nontrivialLookup(sc, evs))
+		rec.Count("random_runs", 1)
+	}
+}
+
 var allOps = []string{"gcp", "findpeer", "getvalue", "searchvalue", "findprov", "putvalue", "provide"}
 
 // runOpsDriver is the common body of the operation drivers.
